@@ -204,9 +204,18 @@ func (f *discFixture) handle(op *jDiscOp, from uint16, data []byte) bool {
 	return op.Bad == ""
 }
 
+// discPause yields to the other goroutines (time.Sleep has a granularity of the order of 100 us, too coarse here)
+func discPause() {
+	for i := 0; i < 4; i++ {
+		runtime.Gosched()
+	}
+}
+
 // state of the goroutine that runs Synchronize ("select", "running", "runnable", ..., "gone")
+var discStackBuf = make([]byte, 1<<17)
+
 func syncGoroutineState() string {
-	buf := make([]byte, 1<<17)
+	buf := discStackBuf
 	n := runtime.Stack(buf, true)
 	for _, block := range strings.Split(string(buf[:n]), "\n\n") {
 		if strings.Contains(block, "disc.(*Member).Synchronize") {
@@ -266,7 +275,7 @@ func (f *discFixture) quiesce() bool {
 		if time.Now().After(deadline) {
 			return false
 		}
-		time.Sleep(15 * time.Microsecond)
+		discPause()
 	}
 }
 
@@ -294,7 +303,7 @@ func (f *discFixture) async(op *jDiscOp, wantTick bool) {
 				op.Bad = "stuck"
 				break
 			}
-			time.Sleep(15 * time.Microsecond)
+			discPause()
 		}
 		if !f.quiesce() {
 			op.Bad = "stuck"
@@ -790,5 +799,53 @@ func runDiscSync(r *prng, id int) *jDiscScen {
 	}
 	f.mu.Unlock()
 	sc.Ops = append(sc.Ops, op)
+	return sc
+}
+
+// The witness of the repaired two-pass defect (Disc/Refute.v race_script) as a fixed step-mode scenario, run before the
+// generated ones: member 1 of {1,2,3,4}, expected 3; 3 announces [1 2 3]; the Range of intersectedView sees that; the
+// first announcement of 2 ([2]) lands; the rest of intersectedView runs.  Upstream returned [1 2 3] here.
+func runDiscWitness(id int) *jDiscScen {
+	topic := []byte("C07 two-pass witness")
+	other := []byte("another topic")
+	sc := &jDiscScen{ID: id, Mode: "step", Plan: "witness", Self: 1, Members: []uint16{1, 2, 3, 4}, Expected: 3}
+	for t, tp := range [][]byte{topic, other} {
+		for _, x := range []uint16{1, 2, 3, 4, 9} {
+			sc.Tags = append(sc.Tags, jTag{T: t, ID: x, Tag: hex.EncodeToString(discTag(tp, x))})
+		}
+	}
+	f := newDiscFixture(sc, topic, other)
+	vt, err := f.m.VerifRegister(topic)
+	if err != nil {
+		panic(err)
+	}
+	f.vt = vt
+	handle := func(kind string, from uint16, data []byte) bool {
+		op := jDiscOp{Op: "handle", Kind: kind, From: from, Data: hex.EncodeToString(data)}
+		ok := f.handle(&op, from, data)
+		if ok {
+			f.snapshot(&op)
+		}
+		sc.Ops = append(sc.Ops, op)
+		return ok
+	}
+	if !handle("announce-target", 3, discEncode(1, discTag(topic, 3), []uint16{1, 2, 3})) {
+		return sc
+	}
+	fz := vt.Freeze()
+	sc.Ops = append(sc.Ops, jDiscOp{Op: "freeze"})
+	if !handle("announce-partial", 2, discEncode(1, discTag(topic, 2), []uint16{2})) {
+		return sc
+	}
+	iv2 := u16s(vt.IntersectedViewFrom(fz))
+	sc.Ops = append(sc.Ops, jDiscOp{Op: "pass2", IV: iv2})
+	iv := u16s(vt.IntersectedView())
+	sc.Ops = append(sc.Ops, jDiscOp{Op: "pass", IV: iv})
+	// 2 catches up: now the list is agreed
+	if !handle("announce-target", 2, discEncode(2, discTag(topic, 2), []uint16{1, 2, 3})) {
+		return sc
+	}
+	iv = u16s(vt.IntersectedView())
+	sc.Ops = append(sc.Ops, jDiscOp{Op: "pass", IV: iv})
 	return sc
 }
